@@ -14,6 +14,7 @@ from ..fold import Inst, Unknown, is_unknown, show
 from ..decide import truth_table, PathOutcome
 from ..cfg import cfg_of
 from ..spec import tables as T
+from .common import inconclusive_on_error as _ioe
 from .common import entries, impls, is_const, scope_of, sites_calling, JWS_CONSUME, JWS_PRODUCE, JWE_CONSUME, JWE_PRODUCE
 
 REG_CLASSES = ["rfc7515.registry:JWSRegistry", "rfc7516.registry:JWERegistry"]
@@ -130,6 +131,7 @@ def _gate_atoms(fn: FunctionInfo, name_param: str, table_text: str):
     return atom_of
 
 
+@_ioe
 def _gate_folded(ctx, fn: FunctionInfo, table_text: str, returns_lookup: bool) -> Optional[List[str]]:
     """Fold an algorithm gate on probe registries (allowed: None / [] / lists; a one-name recommended list; a three-name table) and probe
     names (listed, unlisted, empty, non-str): it hands out table[name] (resp. completes) exactly when the name is a str in the table and
